@@ -240,6 +240,20 @@ PROPS = {
         "technique": "Coq lemmas about a hand model of the gob transport + differential run against real gob round trips + oracle",
         "assumptions": ["gob.Register state of the package as at init"],
     },
+    "C02": {
+        "props": "theories/Props/C02.v", "gens": [("tables", "Codec/Gen_Tables.v")], "cluster": "expand", "gen": "expand", "ops": ["expand_spec"],
+        "n": {"quick": 120, "thorough": 1500}, "oracle_n": {"quick": 150, "thorough": 3000},
+        "rule": 'correspondence: ExpandSpec on generated multi-document reference graphs (1-5 documents in the same/sub/parent directories and an http host; local, sibling, ./ ../, root-relative and absolute refs; nested-pointer and whole-document targets; escaped names; refs at every sub-schema keyword; parameters/responses/path items by $ref; cycles of every small topology; all option combinations) + a bounded-exhaustive sample of graphs over <=3 definitions x <=2 documents; oracle: an independent dereferencer (harness/refgraph.go: RFC 3986 resolution against the containing document, JSON pointer evaluation) unfolds every schema, parameter, response and path item of input and output to depth 6 and compares them position by position, with AbsoluteCircularRef on and off; non-trivial = graph with at least one $ref whose expansion succeeds',
+        "trusted_base": COMMON_TB + ["Expand/Expand.v: hand model of expander.go / schema_loader.go / resolver.go on JSON trees (base-path threading, parent stack, memo of circular refs, resolver roots, deref chains, rebasing, SkipSchemas/ContinueOnError/AbsoluteCircularRef, cache and loader log); abstractions: sub-schemas visited in JSON member order, `#/` refs into the live root read the original root (outputs on cyclic graphs compared through unfoldings)",
+                                     "Expand/ExpandSim.v: the definition of meaning (sem_target / chases / sim) is part of the statement; it reads a target through the typed decoding (norm ... Schema) as resolveRef does",
+                                     "correspondence scope: graphs without multi-hop parameter/response/path-item chains, imported-circular schemas, schema ids and prefix-sibling documents (the areas of the open findings F7-F10) are compared; the others are judged by the oracle only",
+                                     "harness/refgraph.go: the oracle's own dereferencer (independent of the library's resolver)",
+                                     "Codec/Codec.v (typed decoding of every resolved target) and Base/Url.v (normalizeURI, rebase)"],
+        "level_text": 'Coq theorems (Props/C02.v over Expand/ExpandSim.v, ExpandSimCheck.v), unbounded: meaning is defined relationally (chases: "$ref replaces its holder", resolved against the containing document; sim n: level-by-level comparison; bisimilar = all n). Proved for every document store, state (cache and memo, i.e. every history of earlier expansions and every visiting order), parent stack, fuel, SkipSchemas and AbsoluteCircularRef setting: a successful schema walk returns a value that, read at the root location, is bisimilar to its input read in its own document; resolveRef computes the document-relative target whatever root the resolver holds (resolver/base coherence is an invariant maintained by transitiveResolver); the graph hypotheses are decided by a verified checker (check_nodes_sound) and discharged by computation on a concrete cross-document cyclic graph.',
+        "level_note": 'Partial: (1) the theorem covers the schema walk (expandSchema/expandSchemaRef: definitions and every schema below parameters/responses); the $ref chains of parameters, responses and path items (deref) are outside it — on the faithful model the statement is false there (Example C02_refuted_on_parameter_chains_F7, finding F7) — and rest on correspondence + oracle; (2) hypotheses carve out schema ids (F10/F10b), string-prefix sibling documents (F9) and ContinueOnError; (3) two URL-algebra facts (a kept-resolver reference stays in its document; the rendered text of a kept reference resolves back to the same target) are decided per graph by the checker, not proved for all URLs.',
+        "technique": "Coq proof (bisimulation by induction on fuel and tree size) about a hand-written executable model of the expander + differential run (exact on acyclic graphs, unfoldings on cyclic ones) + property oracle with an independent dereferencer on the implementation",
+        "assumptions": ["loader is a function of the URL during one call", "the root document is served at its own location with the content the caller passes"],
+    },
     "C03": {
         "props": "theories/Props/C03.v", "gens": [("tables", "Codec/Gen_Tables.v")], "cluster": "expand", "gen": "expand", "ops": ["expand_spec"],
         "n": {"quick": 120, "thorough": 1500}, "oracle_n": {"quick": 150, "thorough": 3000},
